@@ -491,6 +491,15 @@ func crashCase(steps []step, n, me int) (points int, dvs []*divergence) {
 			if comp == "finalized" || comp == "status" {
 				cls = "lost=" + lost // finality differences are classified by the write that was lost
 			}
+			if comp == "finalized" {
+				// the recorded defect: the store already holds a checkpoint marked Finalized above the finalized
+				// checkpoint of the chain status (which is written last): whichever later write the crash hit
+				for id, st := range got.Status {
+					if st == "F" && id != got.Root && got.Root >= 0 && c.w.Blocks[id].Height > c.w.Blocks[got.Root].Height {
+						cls = "checkpoint-finalized-before-chain-status"
+					}
+				}
+			}
 			dvs = append(dvs, &divergence{last, "C19", "no-convergence:" + comp + ":" + cls, fmt.Sprintf("%s: after re-delivering every block and vote the restarted node differs from the crash-free node: %s", what, d)})
 			continue
 		}
